@@ -23,6 +23,7 @@ func checkC17(c *Check, a *Anchors) {
 	c17CloserAlwaysCalled(c, a)
 	c17PrefixLineComplete(c, a)
 	closerClosesEveryWriter(c, a)
+	writerSerialised(c, a)
 }
 
 // writesTo: the ssa call writes to the value loaded from field `field` of type typ (as receiver of Write or as first argument of a writer helper).
